@@ -25,8 +25,35 @@ def gen(rng, tier):
     for i in range(N):
         r = S.serial_graph(rng, depth=rng.choice([0, 1, 2, 3]), max_nodes=rng.choice([2, 4, 7]),
                            bad_names=(rng.random() < 0.08), shared=(rng.random() < 0.15))
-        cases.append({"kind": "graph", "recipe": V.enc_recipe(r)})
+        c = {"kind": "graph", "recipe": V.enc_recipe(r)}
+        if rng.random() < 0.3:
+            # a real file in a directory shared by all cases of this process, addressed by different spellings of one path
+            c["path"] = {"name": rng.choice(["m0.nir", "m1.nir", "m0.nir"]), "w": rng.choice(SPELLINGS), "r": rng.choice(SPELLINGS)}
+        cases.append(c)
     return cases
+
+
+SPELLINGS = ["abs", "rel", "dot", "updown", "pathlib", "pathlib_rel"]
+_SHARED = {}
+
+
+def shared_dir():
+    if "d" not in _SHARED:
+        import atexit
+        import shutil
+        import tempfile
+        _SHARED["d"] = tempfile.mkdtemp(prefix="nirverif_c01_")
+        atexit.register(shutil.rmtree, _SHARED["d"], True)
+    return _SHARED["d"]
+
+
+def spell(name, how):
+    import os
+    import pathlib
+    d = shared_dir()
+    return {"abs": os.path.join(d, name), "rel": name, "dot": os.path.join(".", name),
+            "updown": os.path.join(d, "..", os.path.basename(d), name), "pathlib": pathlib.Path(d) / name,
+            "pathlib_rel": pathlib.Path(name)}[how]
 
 
 def run(c):
@@ -39,17 +66,26 @@ def run(c):
     nontriv = len(r["nodes"]) >= 2 or "metadata" in r
     import io
     import nir
+    import os
     bio = io.BytesIO()
+    wt = rd = bio
+    cwd0 = os.getcwd()
+    if "path" in c:
+        os.chdir(shared_dir())
+        wt, rd = spell(c["path"]["name"], c["path"]["w"]), spell(c["path"]["name"], c["path"]["r"])
     try:
         with quiet():
-            nir.write(bio, g)
+            nir.write(wt, g)
     except BaseException as e:  # noqa: BLE001
         # a graph that write rejects is outside the claim; the model must reject it too
+        os.chdir(cwd0)
         return Outcome(cops(r, ["file"], ("err", type(e).__name__)), None, False, sig)
     try:
         with quiet():
-            g2 = nir.read(bio)
+            g2 = nir.read(rd)
+        os.chdir(cwd0)
     except BaseException as e:  # noqa: BLE001
+        os.chdir(cwd0)
         return Outcome(cops(r, ["file"], ("err", type(e).__name__)),
                        f"nir.write accepted the graph but nir.read raised {type(e).__name__}: {e}", nontriv, sig)
     fail = compare_graphs(g, g2, r)
